@@ -32,6 +32,10 @@ pub enum Node {
     BinChild { spin: u32, reps: u32 },
     /// await both kids, then select over both (both finished): priority decides -> first kid
     SelDone { a: Box<Node>, b: Box<Node>, swap: bool },
+    /// request/reply with the bare handle `&.` as the reply channel (not wrapped in a tuple): the
+    /// child receives it with `!#(@'int)`. With `tail`, the requester is reached through a tail call,
+    /// so the handle carries a function that was never spawned by name: arg + 8 (or + 7)
+    BareReply { tail: bool },
 }
 
 pub struct Gen {
@@ -89,7 +93,11 @@ impl Gen {
             8 => Node::Chain { inner: Box::new(Self::random_node(rng, depth - 1, budget)) },
             9 => {
                 *budget -= 1;
-                Node::BinChild { spin: *rng.pick(&[0u32, 10, 60, 200]), reps: 1 + rng.below(5) as u32 }
+                if rng.chance(1, 3) {
+                    Node::BareReply { tail: rng.chance(2, 3) }
+                } else {
+                    Node::BinChild { spin: *rng.pick(&[0u32, 10, 60, 200]), reps: 1 + rng.below(5) as u32 }
+                }
             }
             10 => {
                 let a = Self::random_node(rng, depth - 1, budget);
@@ -210,6 +218,18 @@ impl Gen {
                 self.defs.push(format!("{name} = #'int {{ =n, c = n @#'int {{ =m, {sp}[[0x0a0b, {reps}] __binary_repeat__, 0xff] __binary_concat__ }}, b = !c, [b __binary_length__, n] __integer_add__ }}"));
                 name
             }
+            Node::BareReply { tail } => {
+                self.procs += 1;
+                let inner = self.fresh();
+                self.defs.push(format!("{inner} = #'int {{ =n, c = @#{{ from = !#(@'int), [n, 7] __integer_add__ from }}, &. c, !#'int }}"));
+                if *tail {
+                    let name = self.fresh();
+                    self.defs.push(format!("{name} = #'int {{ =n, [n, 1] __integer_add__ ^{inner} }}"));
+                    name
+                } else {
+                    inner
+                }
+            }
             Node::SelDone { a, b, swap } => {
                 let ka = self.emit(a);
                 let kb = self.emit(b);
@@ -257,6 +277,7 @@ pub fn eval(node: &Node, arg: i128) -> i128 {
         Node::SelMsg { inner, .. } => arg + 7 + eval(inner, arg + 1),
         Node::SelProc { inner, .. } => eval(inner, arg + 1) + 3,
         Node::BinChild { reps, .. } => (2 * *reps as i128 + 1) + arg,
+        Node::BareReply { tail } => arg + 7 + *tail as i128,
         Node::SelDone { a, b, swap } => {
             let (va, vb) = (eval(a, arg + 1), eval(b, arg + 2));
             let (first, second) = if *swap { (vb, va) } else { (va, vb) };
@@ -317,6 +338,10 @@ pub fn shape(node: &Node, h: &mut crate::rng::Fnv) {
             h.u64(*swap as u64);
             shape(a, h);
             shape(b, h);
+        }
+        Node::BareReply { tail } => {
+            h.u64(10);
+            h.u64(*tail as u64);
         }
     }
 }
